@@ -209,7 +209,7 @@ func genC19(seed uint64, tier string) *Scenario {
 	r, s := genBase(seed, tier)
 	// virtual time with zero network latency (DESIGN 3, C19)
 	s.Net.LatencyNs, s.Net.StallPct, s.Net.StallNs, s.Net.DialDelayNs = 0, 0, 0, 0
-	s.Oracles = []string{"recv_payload", "bytes", "streams"}
+	s.Oracles = []string{"recv_payload", "bytes", "streams", "status_error"}
 	cfg := rtCfg{C18: true, C19: true, Policy: rtGenPolicy(r)}
 	if r.Chance(3, 4) {
 		cfg.Throttle = rtGenThrottle(r)
@@ -256,7 +256,7 @@ func genC18(seed uint64, tier string) *Scenario {
 	if costCap == 0 && (s.Net.StallPct > 0 || s.Client.WriteBuf == 1 || s.Server.WriteBuf == 1 || s.Net.ReadMax == 1 || s.Net.InflightCap == 1) {
 		costCap = 20000 // every byte or frame is expensive on such a network
 	}
-	s.Oracles = []string{"recv_payload", "bytes", "streams"}
+	s.Oracles = []string{"recv_payload", "bytes", "streams", "status_error"}
 	cfg := rtCfg{C18: true, C19: true}
 	if r.Chance(11, 12) {
 		cfg.Policy = rtGenPolicy(r)
@@ -418,7 +418,7 @@ func genC20(seed uint64, tier string) *Scenario {
 		return rtWarm(i, seed)
 	}
 	r, s := genBase(seed, tier)
-	s.Oracles = []string{"recv_payload"}
+	s.Oracles = []string{"recv_payload", "status_error"}
 	s.Net.StallPct, s.Net.StallNs = 0, 0
 	if s.Net.LatencyNs > 100000 {
 		s.Net.LatencyNs = 100000
@@ -511,7 +511,7 @@ func genC20(seed uint64, tier string) *Scenario {
 		s.Actions = append(s.Actions, Action{AtNs: int64(r.Intn(int(expected/1000)+1)) * 1000, Kind: "connect"})
 	}
 	if r.Chance(1, 3) {
-		for k := r.Range(1, 2); k > 0; k-- {
+		for k := r.Range(1, 4); k > 0; k-- {
 			s.Actions = append(s.Actions, Action{AtNs: int64(r.Intn(int(expected/1000)+1)) * 1000, Kind: "reset_backoff"})
 		}
 	}
@@ -549,7 +549,7 @@ func rtWarm(i int, seed uint64) *Scenario {
 	r := core.NewRand(seed)
 	s := &Scenario{Sched: genSched(r, seed), Net: simnet.Cfg{Seed: core.Mix(seed, 21)}}
 	s.Sched.YieldThr = 6500
-	s.Oracles = []string{"recv_payload", "bytes", "streams"}
+	s.Oracles = []string{"recv_payload", "bytes", "streams", "status_error"}
 	cfg := rtCfg{C18: true, C19: true, C20: true,
 		Policy:          &rtPolicy{MaxAttempts: 4, InitialNs: int64(10 * time.Millisecond), MaxNs: int64(40 * time.Millisecond), Mult: 2, Codes: []int{14, 10}},
 		Throttle:        &rtThrottle{MaxMilli: 10000, RatioMilli: 100},
